@@ -9,6 +9,7 @@ Therefore, all space shapes should really be 2D and parsed history 3D. However,
 """
 from tradingenv.features import Feature
 from tradingenv.contracts import AbstractContract
+from tradingenv.broker.broker import EndOfEpisodeError
 from sklearn.preprocessing import MinMaxScaler, StandardScaler
 from typing import Union, Sequence
 import gymnasium.spaces
@@ -73,7 +74,14 @@ class FeaturePortfolioWeight(Feature):
     def parse(self):
         """Returns array of currently held weights of self.contracts in the
         portfolio."""
-        holdings = self.broker.holdings_weights()
+        try:
+            holdings = self.broker.holdings_weights()
+        except EndOfEpisodeError:
+            # The account is broke: weights over a non-positive net
+            # liquidation value are not defined. The environment ends the
+            # episode, so report no weights rather than making its last
+            # step fail.
+            holdings = dict()
         w = [float(holdings.get(contract, 0.)) for contract in self.contracts]
         if self.total:
             w = [sum(w)]
